@@ -198,6 +198,10 @@ def query(pool, t):
             k, names(sorted(call(o, "inputs"))), names(sorted(call(o, "essential_inputs"))), call(o, "degree"), call(o, "essential_degree"),
             pts(dom), bits(img), rel_s, pts(sup), call(o, "weight"), "none" if sat is None else pt(sat),
             str(call(o, "node_count")) if k == "B" else "-") + " proto=" + proto
+    if q == "weight":
+        o = reg(t[1]); k = kind_of(o)
+        if k == "E": return "skip"
+        return "w=%d deg=%d nodes=%s" % (call(o, "weight"), call(o, "degree"), str(call(o, "node_count")) if k == "B" else "-")
     if q == "eval":
         o = reg(t[1]); v = valuation(int(t[3]), t[4:])
         if t[2] == "-":
